@@ -161,7 +161,6 @@ Print Assumptions C08_close_loses_nothing.
 
 Definition m5 : str := [1; 51; 52; 61; 53; 1]%N.     (* \x01 34=5 \x01 *)
 Definition m7 : str := [1; 51; 52; 61; 55; 1]%N.     (* \x01 34=7 \x01 *)
-Definition m3 : str := [1; 51; 52; 61; 51; 1]%N.     (* \x01 34=3 \x01 *)
 Definition demo : list op :=
   [OCreate [65%N] [66%N]; OPersist 0 1 m5; OCreate [65%N] [66%N]; OPersist 0 0 m7; OSetSeq 0 (Some 3) None].
 
@@ -202,12 +201,24 @@ Example C08_durable_nonvacuous :
 Proof. vm_compute. repeat split. Qed.
 Print Assumptions C08_durable_nonvacuous.
 
-(* DESIGN.md stated (3) as "row (n, dir) implies stored counter(dir) >= n".  That is NOT an
-   invariant of the journal (and not part of the property): numbers may be stored in descending
-   order (C13), after which the counter is the last number written, below an older row.  No
-   crash is involved.  What holds is C08_row_written_with_counter (= n at the row's commit). *)
-Example C08_row_le_counter_refuted :
-  exists ops, let t := cur (r_db (run_state ops)) in
-    lookup t 1 1 5 = Some m5 /\ counter t 1 = Some (3, 0).
-Proof. exists [OCreate [65%N] [66%N]; OPersist 0 1 m5; OPersist 0 1 m3]. vm_compute. split; reflexivity. Qed.
+(* (3) in the form of DESIGN.md: "a row (n, dir) implies stored counter(dir) >= n".  This is an
+   invariant exactly of histories that store numbers in ascending order per session and direction
+   (`ascending`: every persist_msg carries a number >= the stored counter it overwrites - what the
+   session engine does); for those it holds in every recovered state: *)
+Theorem C08_row_le_counter_partial : forall ops k,
+  ascending init ops = true ->
+  let '(d, done, died) := run_crash init ops k 0 in below (cur (reopen d)).
+Proof. exact row_le_counter_partial. Qed.
+Print Assumptions C08_row_le_counter_partial.
+
+(* ... and not in general: the journal accepts numbers in descending order (C13), after which
+   the counter is the last number written, below an older row.  No crash is involved and the
+   property text does not ask for it; what always holds is C08_row_written_with_counter. *)
+Theorem C08_row_le_counter_refuted :
+  exists ops, ascending init ops = false /\ ~ below (cur (r_db (run_state ops))).
+Proof. exact row_le_counter_refuted. Qed.
 Print Assumptions C08_row_le_counter_refuted.
+
+Example C08_ascending_nonvacuous : ascending init demo = true.
+Proof. vm_compute. reflexivity. Qed.
+Print Assumptions C08_ascending_nonvacuous.
